@@ -7,6 +7,7 @@ overlaps, any direction flags).  Helper lemmas: `Lemmas/OrthVis*.lean`.
 import AdaptaVerif.Lemmas.OrthVisLines
 import AdaptaVerif.Lemmas.OrthVisOrder
 import AdaptaVerif.Lemmas.OrthVisCover
+import AdaptaVerif.Lemmas.OrthVisProv
 
 namespace AdaptaVerif.Props.C05OrthVis
 open AdaptaVerif.Model.OrthVis AdaptaVerif.Lemmas.OrthVis
@@ -515,6 +516,97 @@ theorem lines_disjoint (s : Scene) :
     obtain ⟨v', hv', rfl⟩ := List.mem_map.mp hv
     exact (rect_bounds s v' hv').2
 
+/-- a path of graph edges from `u` to `v` all of whose vertices lie on the horizontal line `y` -/
+inductive HPath (G : List (GV × GV)) (y : Rat) : GV → GV → Prop
+  | refl (u : GV) : u.y = y → HPath G y u u
+  | step {u w v : GV} : (u, w) ∈ G → u.y = y → HPath G y w v → HPath G y u v
+
+theorem HPath_of_reach (s : Scene) (h : Seg) (vs : List LV) (hl : (h, vs) ∈ s.lines.hs) {a b : BP}
+    (hr : Reach (lineEdges (toBPs (dirsX s.fixDirs) vs)) a b) :
+    HPath s.graph h.p ⟨a.t, h.p, a.k⟩ ⟨b.t, h.p, b.k⟩ := by
+  induction hr with
+  | refl a => exact HPath.refl _ rfl
+  | @step a c b he _ ih =>
+    refine HPath.step ?_ rfl ih
+    unfold Scene.graph Lines.edges
+    rw [lines_conns]
+    apply List.mem_append_left
+    exact List.mem_flatMap.mpr ⟨(h, vs), hl, List.mem_map.mpr ⟨(a, c), he, rfl⟩⟩
+
+/-- **Hanan-type statement, collinear case (`hanan_path_exists_partial`).**  Two live connector end points
+    `A` (number `i`) and `B` (number `j`) on one horizontal line `y`, `A` left of `B`, `A` may be left to the
+    Right and `B` to the Left (effective flags), boxes of positive width, no box crossed by the open segment
+    between them (every box that the line `y` crosses strictly lies left of `A` or right of `B`), and no
+    other live end point on the line strictly between them.  Then the model graph contains a path from `A`'s
+    vertex to `B`'s vertex running entirely along the line `y` — by `graph_edge_directed` every step goes
+    towards larger x, so its length is `B.x − A.x` and it has no bend: a minimum of length + penalty·bends
+    over ALL orthogonal paths.  (The vertical case is the same statement about the transposed scene.)
+    Missing for the full Hanan statement: paths with bends (an exchange argument pushing an optimal path onto
+    the lines of the model). -/
+theorem hanan_path_exists_partial (s : Scene) (i j : Nat) (A B : Conn)
+    (hA : s.fixDirs[i]? = some A) (hB : s.fixDirs[j]? = some B)
+    (hy : A.y = B.y) (hx : A.x < B.x) (hAr : A.d.right = true) (hBl : B.d.left = true)
+    (hwf : ∀ R ∈ s.rects, R.x0 < R.x1)
+    (hclear : ∀ R ∈ s.rects, R.y0 < A.y → A.y < R.y1 → R.x1 ≤ A.x ∨ B.x ≤ R.x0)
+    (hothers : ∀ (k : Nat) (c : Conn), s.fixDirs[k]? = some c → c.y = A.y → A.x < c.x → c.x < B.x → False) :
+    HPath s.graph A.y ⟨A.x, A.y, .conn i⟩ ⟨B.x, A.y, .conn j⟩ := by
+  have hlA : A.d.none = false := by simp [Dirs.none, hAr]
+  have hlB : B.d.none = false := by simp [Dirs.none, hBl]
+  -- A's line reaches B
+  obtain ⟨pA, hpA, yA, vA, bA, _, _, rA⟩ := endpoint_on_hline s i A hA hlA
+  obtain ⟨pB, hpB, yB, vB, bB, fB, _, _⟩ := endpoint_on_hline s j B hB hlB
+  have hBxhi : B.x ≤ s.hi := by
+    obtain ⟨c', hc', e1, _⟩ := fixDirs_pos s B (List.mem_of_getElem? hB)
+    have : c'.x ∈ s.coords := by
+      unfold Scene.coords
+      exact List.mem_append_right _ (List.mem_flatMap.mpr ⟨c', hc', by simp⟩)
+    rw [← e1]; exact (lo_hi_bound s _ this).2
+  have hreach : B.x ≤ firstBelow s.hi (activeAt s.rects A.y) A.x A.y := by
+    rcases (firstBelow_is_first_blocking_side s.hi s.rects A.x A.y).2 with h | ⟨R, hR, h0, h1, hge, h⟩
+    · rw [h]; exact hBxhi
+    · rw [h]
+      rcases hclear R hR h0 h1 with hc | hc
+      · have := hwf R hR; linarith
+      · exact hc
+  have hfA : B.x ≤ pA.1.f := le_trans hreach (rA hAr)
+  -- both lines contain the point (B.x, y): they are the same line
+  have hmeet : Meets pA.1 pB.1 := ⟨by rw [yA, yB, hy], B.x, by linarith, hfA, bB, fB⟩
+  have hsame : pA.1 = pB.1 := by
+    by_contra hne
+    have hd := (lines_disjoint s).1
+    exact pairwise_ne (fun a b hab hba => hab (meets_symm hba)) hd.2
+      (List.mem_map.mpr ⟨pA, hpA, rfl⟩) (List.mem_map.mpr ⟨pB, hpB, rfl⟩) hne hmeet
+  have hpair : pA = pB := by
+    obtain ⟨_, eA⟩ := lines_hs_form s pA hpA
+    obtain ⟨_, eB⟩ := lines_hs_form s pB hpB
+    apply Prod.ext hsame
+    rw [eA, eB, hsame]
+  rw [← hpair] at vB
+  -- the two breakpoints and what lies between them
+  have ha := mem_toBPs_of_mem (dirs := dirsX s.fixDirs) vA
+  have hb := mem_toBPs_of_mem (dirs := dirsX s.fixDirs) vB
+  have fa : (dirsX s.fixDirs (.conn i)).2 = true := by simp [dirsX, hA, hAr]
+  have fb : (dirsX s.fixDirs (.conn j)).1 = true := by simp [dirsX, hB, hBl]
+  have hmid : ∀ c ∈ toBPs (dirsX s.fixDirs) pA.2, A.x < c.t → c.t < B.x → c.k.isConn = false := by
+    intro c hc h1 h2
+    obtain ⟨q, hq, et, ek⟩ := mem_toBPs hc
+    cases hk : c.k with
+    | node => rfl
+    | conn k =>
+      exfalso
+      have hq' : (⟨c.t, .conn k⟩ : LV) ∈ pA.2 := by
+        have : q = ⟨c.t, .conn k⟩ := by
+          rcases q with ⟨qt, qk⟩
+          simp only at et ek
+          rw [et, ← ek, hk]
+        rw [← this]; exact hq
+      obtain ⟨c', hc', ex, ey⟩ := conn_vertex_provenance s pA hpA c.t k hq'
+      exact hothers k c' hc' (by rw [ey, yA]) (by rw [ex]; exact h1) (by rw [ex]; exact h2)
+  have hr := line_reach (toBPs_sorted (dirsX s.fixDirs) pA.2) _ _ _ ha hb hx
+    (fun _ => fa) (fun _ => fb) hmid (Nat.le_refl _)
+  have := HPath_of_reach s pA.1 pA.2 hpA hr
+  simpa [yA] using this
+
 /-! ### non-vacuity: a closed scene (one routing box, one connector with a restricted source) -/
 
 /-- box [2,4]×[2,4]; source (0,3) may only be left to the Right, target (6,3) in all directions -/
@@ -530,5 +622,16 @@ def demoScene : Scene :=
 -- nothing crosses the box
 #guard demoScene.graph.all fun e => edgeAvoids ⟨2, 2, 4, 4⟩ e.1.x e.1.y e.2.x e.2.y
 #guard !demoScene.graph.isEmpty
+
+/-- non-vacuity of `hanan_path_exists_partial`: box [2,4]×[5,7] beside the line y = 3, end points (0,3) and
+    (6,3) with all directions; the hypotheses hold and the straight path is there -/
+def demoScene2 : Scene :=
+  ⟨[⟨2, 5, 4, 7⟩], [⟨0, 3, ⟨true, true, true, true⟩⟩, ⟨6, 3, ⟨true, true, true, true⟩⟩]⟩
+
+#guard demoScene2.fixDirs[0]? == some ⟨0, 3, ⟨true, true, true, true⟩⟩ &&
+       demoScene2.fixDirs[1]? == some ⟨6, 3, ⟨true, true, true, true⟩⟩
+#guard demoScene2.rects.all fun R => decide (R.x0 < R.x1) && (!(decide (R.y0 < 3) && decide (3 < R.y1)) || decide (R.x1 ≤ 0) || decide (6 ≤ R.x0))
+#guard demoScene2.graph.contains (⟨0, 3, .conn 0⟩, ⟨2, 3, .node⟩) && demoScene2.graph.contains (⟨2, 3, .node⟩, ⟨4, 3, .node⟩) &&
+       demoScene2.graph.contains (⟨4, 3, .node⟩, ⟨6, 3, .conn 1⟩)
 
 end AdaptaVerif.Props.C05OrthVis
